@@ -71,6 +71,8 @@ def soft(
             try:
                 result = await func(*args, **kwargs)
             except exceptions:
+                # the call may have taken a while: what was read before it can have expired meanwhile
+                cached = await backend.get(_cache_key, default=_empty)
                 if cached is not _empty:
                     soft_expire_at, result = cached
                     context_cache_detect._set(
